@@ -409,6 +409,8 @@ def contains(ev: Ev, container, item, node):
 
 # --------------------------------------------------------------------------- calls
 def eval_args(ev, node):
+    # dict.pop / dict.get / dict.setdefault hand their default through untouched: an Optional stays unresolved there
+    keep = isinstance(node.func, ast.Attribute) and node.func.attr in ("pop", "get", "setdefault")
     args = []
     for a in node.args:
         if isinstance(a, ast.Starred):
@@ -418,7 +420,7 @@ def eval_args(ev, node):
             else:
                 args.extend(ev.iter_concrete(sv, a))
         else:
-            args.append(ev.expr(a))
+            args.append(ev.expr_keep(a) if keep else ev.expr(a))
     kwargs = {}
     for k in node.keywords:
         if k.arg is None:
@@ -1097,6 +1099,18 @@ def b_list(ev, args, kwargs, node):
     r = to_list(ev, args[0], node)
     o = ev.st.obj(r)
     return ev.st.alloc(ListObj(o.length, o.cols, o.etype))
+
+
+@builtin("next")
+def b_next(ev, args, kwargs, node):
+    """next(it[, default]) == it.__next__() with StopIteration replaced by the default"""
+    from .engine import PyRaise
+    try:
+        return call_method(ev, args[0], "__next__", [], {}, node)
+    except PyRaise as r:
+        if r.cls == "StopIteration" and len(args) > 1:
+            return args[1]
+        raise
 
 
 @builtin("reversed")
